@@ -1,1 +1,103 @@
-From Anko Require Import Interp.Model.
+(* C02 — cancelling the context always stops a running script.
+   The context is the oracle [cancel_at]: the first poll (statement start, loop iteration, the
+   check of `??`) with index >= cancel_at sees Done, and so does every later one.  The theorems
+   below say that in a cancelled state no statement begins, no loop iterates, `??` does not
+   recover, and try does not catch; together with C08/C09 (a call boundary wraps any error, try
+   passes the interrupt) nothing of the script runs after the instant except expressions already
+   under evaluation and deferred calls.  Wall-clock time and the Go scheduler are not modelled. *)
+From Coq Require Import String List ZArith Bool Arith Lia.
+From Anko Require Import Base.Assoc Env.EnvModel Interp.Ast Interp.Value Interp.ToX Interp.Equal Interp.Model.
+Import ListNotations.
+
+Definition cancelled (cancel_at : option nat) (s : rstate) : Prop :=
+  match cancel_at with Some k => k <= st_polls (r_st s) | None => False end.
+
+Definition polled (s : rstate) : rstate := set_st s (set_polls (r_st s) (S (st_polls (r_st s)))).
+
+Lemma poll_cancelled cancel_at s : cancelled cancel_at s -> poll cancel_at s = (true, polled s).
+Proof.
+  unfold cancelled, poll, polled. destruct cancel_at as [k|]; [|contradiction].
+  intros H. apply Nat.leb_le in H. now rewrite H.
+Qed.
+
+(* once cancelled, stays cancelled: a poll only moves the counter up *)
+Theorem poll_keeps_cancelled : forall cancel_at s, cancelled cancel_at s -> cancelled cancel_at (polled s).
+Proof. unfold cancelled, polled. intros [k|] s H; cbn in *; [lia|assumption]. Qed.
+
+(* no statement begins after the cancellation instant: it returns the interrupt at once and the only
+   thing it changes is the poll counter (no store write, no host call, no scope change) *)
+Theorem no_statement_begins_after_cancel : forall orc cancel_at f so s,
+  cancelled cancel_at s ->
+  exec orc cancel_at (S f) (CStmt so) s = Err (ESentinel SInterruptS) (set_rv (polled s) rv_nil).
+Proof.
+  intros orc cancel_at f so s Hc. cbn [exec exec_body]. unfold run_single. now rewrite (poll_cancelled _ _ Hc).
+Qed.
+
+(* no loop form iterates after the instant; the scope saved at loop entry is put back *)
+Theorem no_loop_iteration_after_cancel : forall orc cancel_at f c body env0 s,
+  cancelled cancel_at s ->
+  exec orc cancel_at (S f) (CLoop c body env0) s = Err (ESentinel SInterruptS) (set_env (set_rv (polled s) rv_nil) env0).
+Proof.
+  intros orc cancel_at f c body env0 s Hc. cbn [exec exec_body]. unfold loop_iter. now rewrite (poll_cancelled _ _ Hc).
+Qed.
+
+Theorem no_cfor_iteration_after_cancel : forall orc cancel_at f e2 e3 body env0 s,
+  cancelled cancel_at s ->
+  exec orc cancel_at (S f) (CCFor e2 e3 body env0) s = Err (ESentinel SInterruptS) (set_env (set_rv (polled s) rv_nil) env0).
+Proof.
+  intros orc cancel_at f e2 e3 body env0 s Hc. cbn [exec exec_body]. unfold cfor_iter. now rewrite (poll_cancelled _ _ Hc).
+Qed.
+
+Theorem no_forin_iteration_after_cancel : forall orc cancel_at f var body l off len i s,
+  cancelled cancel_at s -> i < len ->
+  exec orc cancel_at (S f) (CForSlice var body l off len i) s = Err (ESentinel SInterruptS) (set_rv (polled s) rv_nil).
+Proof.
+  intros orc cancel_at f var body l off len i s Hc Hi. cbn [exec exec_body]. unfold for_slice_iter.
+  destruct (Nat.leb_spec len i); [lia|]. now rewrite (poll_cancelled _ _ Hc).
+Qed.
+
+Theorem no_map_iteration_after_cancel : forall orc cancel_at f vars body m k kr s,
+  cancelled cancel_at s ->
+  exec orc cancel_at (S f) (CForMap vars body m (k :: kr)) s = Err (ESentinel SInterruptS) (set_rv (polled s) rv_nil).
+Proof.
+  intros orc cancel_at f vars body m k kr s Hc. cbn [exec exec_body]. unfold for_map_iter. now rewrite (poll_cancelled _ _ Hc).
+Qed.
+
+(* `??` cannot swallow the interruption: when its left side failed and the context is cancelled,
+   the right side is not evaluated and the interrupt comes out *)
+Theorem coalesce_does_not_recover_after_cancel : forall cancel_at rec l r s e s1,
+  rec (CExpr l) s = Err e s1 -> cancelled cancel_at s1 ->
+  invoke_coalesce cancel_at rec l r s = Err (ESentinel SInterruptS) (set_rv (polled s1) rv_nil).
+Proof.
+  intros cancel_at rec l r s e s1 Hl Hc. unfold invoke_coalesce. rewrite Hl. now rewrite (poll_cancelled _ _ Hc).
+Qed.
+
+(* try does not route the interrupt to catch *)
+Theorem try_does_not_catch_the_interrupt : forall rec t v c f s st1 e1 s1,
+  env_new (r_st s) (r_env s) = (st1, e1) ->
+  rec (CStmt t) (set_env (set_st s st1) e1) = Err (ESentinel SInterruptS) s1 ->
+  run_try rec t v c f s = Err (ESentinel SInterruptS) (set_env s1 (r_env s)).
+Proof. intros rec t v c f s st1 e1 s1 He Ht. unfold run_try. rewrite He, Ht. reflexivity. Qed.
+
+(* the error the host sees: the sentinel itself, or - after crossing a script function - an error
+   with the same message "execution interrupted" *)
+Theorem wrapped_interrupt_keeps_its_message :
+  err_message (wrap_err (ESentinel SInterruptS)) = "execution interrupted"%string.
+Proof. reflexivity. Qed.
+
+Print Assumptions no_statement_begins_after_cancel.
+Print Assumptions no_loop_iteration_after_cancel.
+Print Assumptions no_forin_iteration_after_cancel.
+Print Assumptions coalesce_does_not_recover_after_cancel.
+Print Assumptions try_does_not_catch_the_interrupt.
+
+(* non-vacuity: for { n = spin() ?? 1 } cancelled at poll 7 ends with the interrupt *)
+Open Scope string_scope.
+Definition ex_c02 : stmt :=
+  SStmts [SLoop None (Some (SStmts [SLets [EIdent "n"] [ECoalesce (EOp (OMul (ELit (LInt 1)) "%" (ELit (LInt 0)))) (ELit (LInt 2))]]))].
+Example ex_c02_runs :
+  match run_context (mkOracle [] []) (Some 7) 400 (Some ex_c02) (mkR (mkStore [mkScope None [] [] None] [] [] [] [] 0) 0 rv_nil []) with
+  | Err (ESentinel SInterruptS) _ => True
+  | _ => False
+  end.
+Proof. vm_compute. exact I. Qed.
